@@ -1,0 +1,138 @@
+//go:build verif
+
+// Contracts for package vm, read by /verif/engine (comment-only file: with the
+// verif tag off it does not exist for the compiler; with it on it adds nothing).
+package vm
+
+//@ func vm.makeRange returns r
+//@   property C06 C18
+//@   ensures[len-empty] max-min+1 <= 0 ==> len(r) == 0
+//@   ensures[len] max-min+1 > 0 ==> len(r) == max-min+1
+//@   ensures[content] forall(k, 0, len(r), r[k] == min + k)
+//@   loop 0 modifies obj(rng)
+//@   loop 0 invariant[bounds] rangeindex >= -1 && rangeindex < len(rng)
+//@   loop 0 invariant[content] forall(k, 0, rangeindex+1, rng[k] == min + k)
+//@   loop 0 decreases len(rng) - rangeindex
+
+// Run-time helpers as seen from VM.Run: pure functions of their arguments
+// that may fail (panic). Their value contracts are the C14 obligations.
+//@ func vm.equal
+//@   pure
+//@   panics maybe
+//@ func vm.less
+//@   pure
+//@   panics maybe
+//@ func vm.more
+//@   pure
+//@   panics maybe
+//@ func vm.lessOrEqual
+//@   pure
+//@   panics maybe
+//@ func vm.moreOrEqual
+//@   pure
+//@   panics maybe
+//@ func vm.add
+//@   pure
+//@   panics maybe
+//@ func vm.subtract
+//@   pure
+//@   panics maybe
+//@ func vm.multiply
+//@   pure
+//@   panics maybe
+//@ func vm.divide
+//@   pure
+//@   panics maybe
+//@ func vm.modulo
+//@   pure
+//@   panics maybe
+//@ func vm.negate
+//@   pure
+//@   panics maybe
+//@ func vm.exponent
+//@   pure
+//@   panics maybe
+//@ func vm.toFloat64
+//@   pure
+//@   panics maybe
+//@ func vm.fetch
+//@   pure
+//@   panics maybe
+//@ func vm.slice
+//@   pure
+//@   panics maybe
+//@ func vm.in
+//@   pure
+//@   panics maybe
+//@ func vm.length
+//@   pure
+//@   panics maybe
+//@ func vm.FetchFn
+//@   pure
+//@   panics maybe
+//@ func vm.FetchFnNil
+//@   pure
+//@   panics maybe
+
+//@ func vm.toInt64
+//@   pure
+//@   panics maybe
+
+//@ func vm.toInt
+//@   pure
+//@   panics maybe
+//@ func vm.VM.Run returns out err
+//@   property C04 C05 C06 C07 C08 C09
+//@   mode panics
+//@   requires vm != nil && program != nil && program.Source != nil
+//@   requires vm.debug == false
+//@   requires MemoryBudget >= 1 && MemoryBudget <= 4611686018427387904
+//@   requires[owned-stack] obj(vm.stack) != obj(program.Constants) && obj(vm.stack) != obj(vm)
+//@   requires[owned-scopes] obj(vm.scopes) != obj(vm) && obj(vm.scopes) != obj(vm.stack)
+//@   requires[distinct] obj(vm) != obj(program) && obj(vm.stack) != obj(program) && obj(vm.scopes) != obj(program)
+//@   ensures[err-shape] err != nil ==> out == nil
+//@   loop 0 label-by vm.bytecode[vm.ip]
+//@   loop 0 panic-summary
+//@   loop 0 modifies obj(vm) obj(vm.stack) obj(vm.scopes)
+//@   loop 0 entry-assert[ip] vm.ip == 0
+//@   loop 0 entry-assert[pp] vm.pp == 0
+//@   loop 0 entry-assert[stack-empty] len(vm.stack) == 0
+//@   loop 0 entry-assert[scopes-empty] len(vm.scopes) == 0
+//@   loop 0 entry-assert[memory] vm.memory == 0
+//@   loop 0 entry-assert[limit] vm.limit == MemoryBudget
+//@   loop 0 entry-assert[bytecode] vm.bytecode == program.Bytecode
+//@   loop 0 entry-assert[constants] vm.constants == program.Constants
+//@   loop 0 invariant[static] vm.debug == false && vm.limit >= 1 && vm.limit <= 4611686018427387904
+//@   loop 0 invariant[prog] vm.bytecode == program.Bytecode && vm.constants == program.Constants
+//@   loop 0 invariant[mem-lo] vm.memory >= 0
+//@   loop 0 invariant[budget] vm.memory < vm.limit
+//@   loop 0 invariant[galloc] vm.memory == galloc()
+//@   loop 0 invariant[stack-own] obj(vm.stack) == pre(obj(vm.stack)) || fresh(vm.stack)
+//@   loop 0 invariant[scopes-own] obj(vm.scopes) == pre(obj(vm.scopes)) || fresh(vm.scopes)
+//@   loop 0 invariant[scopes-fresh] forall(k, 0, len(vm.scopes), fresh(vm.scopes[k]))
+//@   loop 0 invariant[lens] len(vm.stack) >= 0 && len(vm.scopes) >= 0
+// inner loops of the call / collection opcodes, keyed by the opcode of the enclosing iteration
+//@   loop OpCall modifies field(vm.stack) obj(in)
+//@   loop OpCall invariant[galloc] galloc() == pre(galloc())
+//@   loop OpCall invariant[stack] obj(vm.stack) == pre(obj(vm.stack)) && len(vm.stack) >= 0
+//@   loop OpCallFast modifies field(vm.stack) obj(in)
+//@   loop OpCallFast invariant[galloc] galloc() == pre(galloc())
+//@   loop OpCallFast invariant[stack] obj(vm.stack) == pre(obj(vm.stack)) && len(vm.stack) >= 0
+//@   loop OpMethod modifies field(vm.stack) obj(in)
+//@   loop OpMethod invariant[galloc] galloc() == pre(galloc())
+//@   loop OpMethod invariant[stack] obj(vm.stack) == pre(obj(vm.stack)) && len(vm.stack) >= 0
+//@   loop OpMethodNilSafe modifies field(vm.stack) obj(in)
+//@   loop OpMethodNilSafe invariant[galloc] galloc() == pre(galloc())
+//@   loop OpMethodNilSafe invariant[stack] obj(vm.stack) == pre(obj(vm.stack)) && len(vm.stack) >= 0
+//@   loop OpArray modifies field(vm.stack) obj(array)
+//@   loop OpArray invariant[galloc] galloc() == pre(galloc())
+//@   loop OpArray invariant[stack] obj(vm.stack) == pre(obj(vm.stack)) && len(vm.stack) >= 0
+//@   loop OpMap modifies field(vm.stack) obj(m)
+//@   loop OpMap invariant[galloc] galloc() == pre(galloc()) + (size - 1 - i)
+//@   loop OpMap invariant[i] i >= -1 && i < size
+//@   loop OpMap invariant[pops] len(vm.stack) == pre(len(vm.stack)) - 2*(size-1-i)
+//@   loop OpMap invariant[count] size-1-i >= 0 && size-1-i <= 70368744177664
+//@   loop OpMap invariant[stack] obj(vm.stack) == pre(obj(vm.stack)) && len(vm.stack) >= 0
+//@   case OpMap: assume-compiled size >= 0
+//@   case OpCallFast: exempt-alloc the argument vector of a variadic call is not a collection built by the expression
+//@   case OpRange: on-budget-panic galloc() + ite(max - min + 1 > 0, max - min + 1, 0) >= vm.limit
